@@ -842,6 +842,12 @@ def make_part(desc, run_id):
             'name': p['name'], 'run_id': run_id, 'ts': [p['ts']],
             'meta': True, 'salt': p['salt']})
         topology[p['name']] = {'own': ('own', p['name']), 'shared': ('shared',)}
+    for d in desc.get('legacy', []):
+        # legacy deriver: a Step listed under `processes`, no flow entry
+        processes[d['name']] = RecStep({'name': d['name'], 'run_id': run_id,
+                                        'meta': True, 'salt': d['salt']})
+        topology[d['name']] = {'own': ('own', d['name']),
+                               'shared': ('shared',), 'layer': ('layer',)}
     for s in desc.get('steps', []):
         steps[s['name']] = RecStep({'name': s['name'], 'run_id': run_id,
                                     'meta': True, 'salt': s['salt']})
